@@ -104,4 +104,12 @@ TEXT = {
                 "the runtime behaviour (including output buffers) rests on the harness. tools/gen's syntactic analysis is trusted.",
         "technique": "Coq proof over a provenance semantics + AST-extracted retention-site tie + overwrite/snapshot harness on the real code",
     },
+    "C20": {
+        "text": "Read-only operations are state transformers in the model; any sequence of them (any length) leaves the value unchanged and repeated calls return equal results; the pinned "
+                "tree's defect (OptionCodeList.String sorting its receiver) is kept as a refutation theorem about the flagged old behaviour. The theorems are shallow (a pure model cannot "
+                "mutate): the deciding part is the harness, which calls every niladic exported method found by reflection, singly and in sequences, on packets, messages, options at every "
+                "nesting level and standalone option values, comparing encodings and accessor dumps after every call.",
+        "note": COMMON_NOTE + "Mutation through a receiver is a runtime effect no pure model exhibits; the claim rests on the reflection harness, the theorems state its content.",
+        "technique": "Coq statement over state transformers (shallow) + reflection-driven call-sequence harness on the real code",
+    },
 }
